@@ -33,7 +33,9 @@ def gen_verbatim(rng):
         else:
             parts.append(''.join(rng.choice(PRINTABLE + '\n') for _ in range(rng.randrange(1, 6))))
     body = ''.join(parts)
-    body = body.replace('\\end{verbatim}', '\\end{verbatim').replace('\\endverbatim', '\\endverbati')
+    # the body must not contain a complete end marker (pieces may combine into one, so repeat until none is left)
+    while '\\end{verbatim}' in body or '\\endverbatim' in body or '\\end{verbatim*}' in body:
+        body = body.replace('\\end{verbatim}', '\\end{verbatim').replace('\\endverbatim', '\\endverbati').replace('\\end{verbatim*}', '\\end{verbatim*')
     star = rng.random() < 0.2
     return dict(body=body, star=star)
 
